@@ -702,3 +702,43 @@ Proof.
   exists [0; 1; 2], overlap_h0, 1%nat, 5, 1%nat, None, overlap_hq, 2%nat, 0%nat, None.
   vm_compute. repeat split; auto.
 Qed.
+
+(* ================================================================================ *)
+(* Modelled granularity of the commit: 'finally: _pmap = pmap' is ONE step.  In every state, an event changes
+   the committed cache only if it is cache_clear(), or if it finishes a generator (which then is done) -- there
+   is no machine state in which the cache is half replaced. *)
+Theorem cache_change_is_commit valid s e :
+  pmap (fst (step valid s e)) <> pmap s ->
+  e = CacheClear \/
+  exists g, (e = IterNext g \/ e = IterClose g) /\ gens (fst (step valid s e)) g = GDone /\ gens s g <> GDone.
+Proof.
+  intros Hne. pose proof (pmap_frame valid s e) as F.
+  destruct e; try (exfalso; apply Hne; exact F); [| |now left].
+  - (* IterNext *)
+    right. exists g. split; [now left|]. cbn [step] in *.
+    destruct (Nat.leb (ngen s) g); [exfalso; now apply Hne|].
+    destruct (gens s g) as [a|a pm rest|] eqn:Eg; [| |exfalso; now apply Hne].
+    + destruct (gen_start _ _ _) as [[[pm ls] low]|e|].
+      * pose proof (run_loop_facts valid (mk s (tbl s) (pmap s) [] (Some low) (heap s) (nobj s) (gens s) (ngen s)) g a pm ls) as R.
+        cbn zeta in R. destruct R as [_ [_ [_ [_ [_ Fm]]]]].
+        destruct (gen_loop _ _ _ _ _); destruct Fm as [Fp [Fgs _]].
+        -- exfalso. apply Hne. exact Fp.
+        -- split; [rewrite Fgs; apply set_gen_same|discriminate].
+        -- split; [rewrite Fgs; apply set_gen_same|discriminate].
+        -- split; [rewrite Fgs; apply set_gen_same|discriminate].
+      * exfalso. now apply Hne.
+      * exfalso. now apply Hne.
+    + pose proof (run_loop_facts valid s g a pm rest) as R. cbn zeta in R. destruct R as [_ [_ [_ [_ [_ Fm]]]]].
+      destruct (gen_loop _ _ _ _ _); destruct Fm as [Fp [Fgs _]].
+      * exfalso. apply Hne. exact Fp.
+      * split; [rewrite Fgs; apply set_gen_same|discriminate].
+      * split; [rewrite Fgs; apply set_gen_same|discriminate].
+      * split; [rewrite Fgs; apply set_gen_same|discriminate].
+  - (* IterClose *)
+    right. exists g. split; [now right|]. cbn [step] in *.
+    destruct (Nat.leb (ngen s) g); [exfalso; now apply Hne|].
+    destruct (gens s g) as [a|a pm rest|] eqn:Eg.
+    + exfalso. now apply Hne.
+    + split; [cbn; apply set_gen_same|discriminate].
+    + exfalso. now apply Hne.
+Qed.
